@@ -113,6 +113,40 @@ def _shrinking_resize(arg, recv_path):
     return False
 
 
+MONOTONE_SCANNERS = set()      # keys of helper functions that return their first parameter after only advancing it
+
+
+def find_monotone_scanners(functions):
+    """first-party helpers of the shape `T* scan(T* p, ...) { while (...) ++p; return p; }`"""
+    out = set()
+    for f in functions:
+        ps = f.get("params") or []
+        if not ps or not f.get("blocks") or "*" not in (ps[0].get("ty") or ""):
+            continue
+        pid = ps[0]["id"]
+        ok, rets = True, 0
+        for b in f["blocks"]:
+            for st in b["stmts"]:
+                if st["k"] == "return":
+                    e = X.strip(st.get("e")) if st.get("e") is not None else None
+                    rets += 1
+                    if not (isinstance(e, dict) and e.get("k") == "ref" and e.get("id") == pid):
+                        ok = False
+                for nd in X.stmt_nodes(st):
+                    if nd.get("k") == "assign":
+                        t0 = X.strip(nd["lhs"])
+                        if isinstance(t0, dict) and t0.get("k") == "ref" and t0.get("id") == pid and \
+                                not (nd.get("op") == "+=" and _const_pos(nd["rhs"])):
+                            ok = False
+                    if nd.get("k") == "un" and nd.get("op") == "--":
+                        t0 = X.strip(nd["e"])
+                        if isinstance(t0, dict) and t0.get("k") == "ref" and t0.get("id") == pid:
+                            ok = False
+        if ok and rets >= 1:
+            out.add(f["key"])
+    return out
+
+
 def progress_of(n):
     """(direction, path) for a statement-level node that moves a variable, ('wild', path) for other writes."""
     k = n.get("k")
@@ -132,6 +166,11 @@ def progress_of(n):
                 d = None
                 if isinstance(r, dict) and r.get("k") == "bin" and r.get("op") in ("+", "-") and X.path(r["l"]) == p and _const_pos(r["r"]):
                     d = "up" if r["op"] == "+" else "down"
+                # p = scan(p + k, end) where scan only ever advances its first parameter and returns it (k >= 1)
+                if isinstance(r, dict) and r.get("k") == "call" and r.get("callee") in MONOTONE_SCANNERS and r.get("args"):
+                    a0 = X.strip(r["args"][0])
+                    if isinstance(a0, dict) and a0.get("k") == "bin" and a0.get("op") == "+" and X.path(a0["l"]) == p and _const_pos(a0["r"]):
+                        d = "up"
                 out.append((d or "wild", p))
             else:
                 out.append(("wild", p))
